@@ -43,9 +43,9 @@ COQ_TABLES = os.path.join(_ROOT, 'coq', 'tables')                         # Tabl
 REPO_SRC = '/repo/src'                                   # only for check_coverage
 COQC = 'coqc'
 JOBS = 16
-TIMEOUT_GEN = 300     # seconds, Tables_gen.v / TableSpec.v
-TIMEOUT_BLOCK = 120   # seconds, one theorem block
-TIMEOUT_HARNESS = 60
+TIMEOUT_GEN = 1200    # seconds, Tables_gen.v / TableSpec.v
+TIMEOUT_BLOCK = 900  # seconds, one theorem block
+TIMEOUT_HARNESS = 600
 
 BEGIN_RE = re.compile(r'^\(\*\s*BEGIN\s+(\S+)\s*:\s*(eq|all|rel)\s+(\S+)\s+(\S+)\s+(\d+)\s+(\d+)\s*\*\)\s*$')
 END_RE = re.compile(r'^\(\*\s*END\s*\*\)\s*$')
